@@ -291,6 +291,29 @@ def run(rep):
                               {"case": c, "observed": o})
         if c["o"] and o["stdout"]:
             rep.violation("output went to stdout although -o was given", {"case": c, "observed": o})
+    # the same value tree through several writers in sequence: each output must equal a fresh encode
+    seq_cases = [gen_case(rng) for _ in range(150 if rep.tier == "quick" else 4000)]
+    sops = []
+    for i, c in enumerate(seq_cases):
+        fs = [rng.choice(FMTS) for _ in range(rng.randint(2, 4))]
+        c["seq_formats"] = fs
+        docs = [to_wire(drop_nulls(d)) for d in c["docs"]]
+        sops.append({"op": "format", "id": i, "format": "json", "marshalseq": fs, "docs": docs})
+        for j, f in enumerate(fs):
+            sops.append({"op": "format", "id": f"{i}:{j}", "format": f, "encode": docs})
+    sres = run_go(sops)
+    for i, c in enumerate(seq_cases):
+        rep.case(["marshalseq", c["docs"], c["seq_formats"]], True)
+        rep.count("marshalseq")
+        seq = (sres.get(i) or {}).get("seq") or []
+        for j, f in enumerate(c["seq_formats"]):
+            fresh = sres.get(f"{i}:{j}") or {}
+            got = seq[j] if j < len(seq) else {}
+            if ("bytes" in fresh) != ("bytes" in got) or fresh.get("bytes") != got.get("bytes"):
+                if len(rep.violations) < 6:
+                    rep.violation(f"MarshalStream({f}) of a tree that was written as {c['seq_formats'][:j]} before differs from a fresh encode (a writer modified its argument)",
+                                  {"case": {"marshalseq": {"docs": c["docs"], "formats": c["seq_formats"]}}, "position": j})
+                break
     rw = [{"ext": e, "preexisting": p} for e in ("json", "yaml", "toml", "yml", "jsonl", "json-pretty") for p in ("long", "garbage", "none")]
     for c, o in zip(rw, pmap(run_rewrite, rw)):
         rep.case(["rewrite", c], True)
